@@ -67,9 +67,12 @@ impl<T> Drop for Sender<T> {
 
 impl<T> Receiver<T> {
     pub fn try_recv(&mut self) -> Result<Option<T>, ChannelClosed> {
+        // The producer must be observed as gone *before* the ring is found empty; the other
+        // order lets a command pushed between the two checks be dropped with the channel.
+        let abandoned = self.rx.is_abandoned();
         match self.rx.pop() {
             Ok(val) => Ok(Some(val)),
-            Err(_) if self.rx.is_abandoned() => Err(ChannelClosed),
+            Err(_) if abandoned => Err(ChannelClosed),
             Err(_) => Ok(None),
         }
     }
